@@ -791,6 +791,12 @@ func c14block(c *vf.Ctx, i int) {
 	})
 	r.Fill(blk.Header.PrevBlock[:])
 	r.Fill(blk.Header.MerkleRoot[:])
+	colliding := i%500 == 9
+	if colliding {
+		// the header for which cmd/sipcollide found two scripts with the same full
+		// 64-bit SipHash under the block's own filter key
+		blk.Header = wire.BlockHeader{Version: 1, Timestamp: time.Unix(1600000000, 0), Bits: 0x1d00ffff, Nonce: 12345}
+	}
 	cb := g.coinbase()
 	if i == 0 { // coinbase with empty scripts only: empty entry set
 		cb.TxOut = nil
@@ -804,6 +810,19 @@ func c14block(c *vf.Ctx, i int) {
 	bh := c14headerHash(&blk.Header)
 	var key [16]byte
 	copy(key[:], bh[:16])
+	if colliding {
+		var sa, sb [8]byte
+		binary.LittleEndian.PutUint64(sa[:], sipCollide.A)
+		binary.LittleEndian.PutUint64(sb[:], sipCollide.B)
+		if sipCollide.A != sipCollide.B && ref.SipHash24(key, sa[:]) == ref.SipHash24(key, sb[:]) {
+			tx := blk.Transactions[len(blk.Transactions)-1]
+			tx.AddTxOut(&wire.TxOut{Value: 1, PkScript: sa[:]})
+			blk.Transactions[0].AddTxOut(&wire.TxOut{Value: 2, PkScript: sb[:]})
+			c.Inc("blocks_with_two_scripts_of_equal_siphash_under_the_block_key")
+		} else {
+			c.Inc("siphash_collision_table_not_confirmed")
+		}
+	}
 	entries, st := c14entries(blk.Transactions, 1)
 	for k, v := range st {
 		c.Count("block_"+k, int64(v))
